@@ -53,7 +53,7 @@ func c09siteAfterSuccess(s, r c08site) bool {
 	if a == b || a.F != b.F {
 		return false
 	}
-	return afterSuccess(a.F, a, b.Pt)
+	return c08after(a.F, a, b.Pt)
 }
 
 // c09returnsError: does the callee of the call site return an error as its last result?
@@ -100,6 +100,51 @@ func c09mustPassSitesBefore(f *core.FuncInfo, sites []c08site, to core.Point) (b
 		return false
 	}}.Find()
 	return !found, wit
+}
+
+// c09sealHost: the function that performs the seal for onFrameDecided, located by its effect — it
+// persists the new epoch state (calls Store.SetEpochState): onFrameDecided itself when the seal is
+// spelled in place (no calls returned), otherwise the one module function called from onFrameDecided
+// (not in go/defer) that does, together with its calls in onFrameDecided. nil when there is none or
+// more than one candidate.
+func c09sealHost(od *core.FuncInfo) (*core.FuncInfo, []*core.CallSite) {
+	const setES = "abft.Store.SetEpochState"
+	if od == nil {
+		return nil, nil
+	}
+	if len(od.CallsTo(setES)) > 0 {
+		return od, nil
+	}
+	var host *core.FuncInfo
+	var calls []*core.CallSite
+	for _, cs := range od.Calls() {
+		if cs.InGo || cs.InDefer {
+			continue
+		}
+		fn, ok := cs.Callee.(*types.Func)
+		if !ok {
+			continue
+		}
+		g := od.P.FuncOf(fn)
+		if g == nil || g == od || len(g.CallsTo(setES)) == 0 {
+			continue
+		}
+		if host != nil && host != g {
+			return nil, nil
+		}
+		host = g
+		calls = append(calls, cs)
+	}
+	return host, calls
+}
+
+// c09isValidators: (a pointer to) the validators type.
+func c09isValidators(p *core.Prog, t types.Type) bool {
+	if pt, ok := t.(*types.Pointer); ok {
+		t = pt.Elem()
+	}
+	nt, ok := t.(*types.Named)
+	return ok && p.ObjName(nt.Obj()) == "inter/pos.Validators"
 }
 
 // c09sealVar: the variable of onFrameDecided that receives the validators returned by the
